@@ -120,55 +120,82 @@ def main():
             else:
                 out.append(Sym(z3.Real('LOOP_xyz2llh_' + n)))
         return tuple(out)
-    xyz2llh_cut = E.cut_loops(cv.xyz2llh, cv, summary)
-    prex = vell + [X.t * X.t + Y.t * Y.t > 0]
-    paths2 = E.explore(lambda: xyz2llh_cut(X, Y, Z, ell), prex, label="convert.xyz2llh")
-    kinds = sorted(p['kind'] for p in paths2)
-    if 'loopback' not in kinds or 'ret' not in kinds:
-        raise S.EngineError('xyz2llh: loop cut produced path kinds %r' % kinds)
-    L = E.LOOPS['xyz2llh#while1']
-    P.loops.append(dict(loop='convert.xyz2llh#while1', cut='havoc/if/back', summary='UF of (p, z, a, e2, latinit)',
-                        invariant='none needed (exit facts come from the negated guard)', names=list(L['head'])))
-    lat_h = L['head']['lat'].t
-    pz = lift(L['reads']['p'])
-    e2 = lift(ell.ecc1sq)
-    am = lift(ell.semimaj)
-    nu_h = am / UF['sqrt'](1 - e2 * UF['sin'](lat_h) ** 2)
-    step = UF['atan']((Z.t + nu_h * e2 * UF['sin'](lat_h)) / pz)
-    P.oblige('C03.xyz2llh.fixed_point_body', 'convert.xyz2llh', 'loop body',
-             E.prove_eq(L['post']['lat'].t, step, []), code=L['post']['lat'].t, spec=step)
-    P.oblige('C03.xyz2llh.itercheck_is_step', 'convert.xyz2llh', 'loop body',
-             E.prove_eq(L['post']['itercheck'].t, lat_h - step, []), code=L['post']['itercheck'].t, spec=lat_h - step)
-    P.oblige('C03.xyz2llh.p_is_axis_distance', 'convert.xyz2llh', 'entry',
-             E.prove_eq(pz, UF['sqrt'](X.t * X.t + Y.t * Y.t), []), code=pz, spec=UF['sqrt'](X.t * X.t + Y.t * Y.t))
-    for p in [q for q in paths2 if q['kind'] == 'ret']:
-        la, lo, hh = [v.t for v in p['val']]
-        ic = L['head']['itercheck'].t
-        tol = z3.Q(1, 10 ** 10)
-        P.oblige('C03.xyz2llh.exit', 'convert.xyz2llh', 'exit', E.prove(z3.And(ic <= tol, ic >= -tol), p['pc']), strict=True,
-                 note='loop exit implies |last step| <= 1e-10 rad')
-        P.oblige('C03.xyz2llh.lon', 'convert.xyz2llh', 'exit',
-                 E.prove(z3.And(lo == UF['atan2'](Y.t, X.t) * 180 / PI, lo > -180, lo <= 180), prex + p['pc']), strict=True)
-        P.oblige('C03.xyz2llh.lat_is_loop_result', 'convert.xyz2llh', 'exit',
-                 E.prove_eq(la, lat_h * 180 / PI, []), code=la, spec=lat_h * 180 / PI)
-        # inverse at a fixed point (taken from the property statement, not from the code's height formula): if the loop
-        # result lat_h is a fixed point of the body, the closed form maps the RETURNED (lat, lon, h) back to (X, Y, Z)
-        fp = lat_h == step
-        pp = UF['sqrt'](X.t * X.t + Y.t * Y.t)
-        lam = UF['atan2'](Y.t, X.t)
-        xs = ((nu_h + hh) * UF['cos'](lat_h) * UF['cos'](lam), (nu_h + hh) * UF['cos'](lat_h) * UF['sin'](lam),
-              ((1 - e2) * nu_h + hh) * UF['sin'](lat_h))
-        hyp = prex + [fp, pz == pp, pp > 0, UF['cos'](lat_h) > 0, lo == lam * 180 / PI, la == lat_h * 180 / PI,
-                      1 - e2 * UF['sin'](lat_h) ** 2 > 0]
-        sh, ch = UF['sin'](lat_h), UF['cos'](lat_h)
-        fp_trig = sh * pz == (Z.t + nu_h * e2 * sh) * ch
-        P.oblige('C03.xyz2llh.fixed_point_trig_form', 'convert.xyz2llh', 'lemma',
-                 E.prove_abs(fp_trig, [fp, pz > 0, ch > 0]), strict=True,
-                 note='lat = atan(q) implies sin(lat) p = (z + nu e2 sin lat) cos(lat)')
-        hyp = hyp + [fp_trig]
-        P.oblige('C03.xyz2llh.inverse_at_fixed_point', 'convert.xyz2llh', 'exit',
-                 E.prove_abs(z3.And(xs[0] == X.t, xs[1] == Y.t, xs[2] == Z.t), hyp, timeout=120000), strict=True,
-                 note='llh2xyz_spec(returned lat, lon, h) == (X, Y, Z) whenever the loop result is a fixed point of the body')
+    def native_roundtrip(w):
+        """the property itself on the real function: xyz2llh(x, y, z) fed back through the 50-digit closed form returns (x, y, z) within 0.02 mm"""
+        import geodepy.convert as cvn, geodepy.constants as Cn
+        mp.mp.dps = 50
+        for a_, invf_ in ((6378137.0, 298.257222101), (6378388.0, 297.0), (6310000.0, 151.0)):
+            for la_ in (-77.3, -33.0, 0.0, 12.5, 45.0, 89.0):
+                for h_ in (-5000.0, 0.0, 8848.0, 4.0e5, 2.0e7, 4.0e7):
+                    lo_ = 151.2
+                    x_, y_, z_ = [float(v) for v in geo.geodetic_to_cart(mp.mpf(la_), mp.mpf(lo_), mp.mpf(h_), mp.mpf(a_), mp.mpf(invf_), MMp)]
+                    la2, lo2, h2 = cvn.xyz2llh(x_, y_, z_, Cn.Ellipsoid(a_, invf_))
+                    back = geo.geodetic_to_cart(mp.mpf(la2), mp.mpf(lo2), mp.mpf(h2), mp.mpf(a_), mp.mpf(invf_), MMp)
+                    dev = max(abs(mp.mpf(u) - v) for u, v in zip((x_, y_, z_), back))
+                    if dev > mp.mpf('2e-5'):
+                        return dict(call='xyz2llh(%r, %r, %r, Ellipsoid(%r, %r))' % (x_, y_, z_, a_, invf_), observed=(la2, lo2, h2), deviation_m=float(dev),
+                                    expected='a position whose closed-form Cartesian image is the input within 0.02 mm', input=dict(x=x_, y=y_, z=z_, a=a_, invf=invf_))
+        return None
+
+    def loop_contract():
+        xyz2llh_cut = E.cut_loops(cv.xyz2llh, cv, summary)
+        prex = vell + [X.t * X.t + Y.t * Y.t > 0]
+        paths2 = E.explore(lambda: xyz2llh_cut(X, Y, Z, ell), prex, label="convert.xyz2llh")
+        kinds = sorted(p['kind'] for p in paths2)
+        if 'loopback' not in kinds or 'ret' not in kinds:
+            raise S.EngineError('xyz2llh: loop cut produced path kinds %r' % kinds)
+        L = E.LOOPS['xyz2llh#while1']
+        P.loops.append(dict(loop='convert.xyz2llh#while1', cut='havoc/if/back', summary='UF of (p, z, a, e2, latinit)',
+                            invariant='none needed (exit facts come from the negated guard)', names=list(L['head'])))
+        lat_h = L['head']['lat'].t
+        pz = lift(L['reads']['p'])
+        e2 = lift(ell.ecc1sq)
+        am = lift(ell.semimaj)
+        nu_h = am / UF['sqrt'](1 - e2 * UF['sin'](lat_h) ** 2)
+        step = UF['atan']((Z.t + nu_h * e2 * UF['sin'](lat_h)) / pz)
+        P.oblige('C03.xyz2llh.fixed_point_body', 'convert.xyz2llh', 'loop body',
+                 E.prove_eq(L['post']['lat'].t, step, []), code=L['post']['lat'].t, spec=step)
+        P.oblige('C03.xyz2llh.itercheck_is_step', 'convert.xyz2llh', 'loop body',
+                 E.prove_eq(L['post']['itercheck'].t, lat_h - step, []), code=L['post']['itercheck'].t, spec=lat_h - step)
+        P.oblige('C03.xyz2llh.p_is_axis_distance', 'convert.xyz2llh', 'entry',
+                 E.prove_eq(pz, UF['sqrt'](X.t * X.t + Y.t * Y.t), []), code=pz, spec=UF['sqrt'](X.t * X.t + Y.t * Y.t))
+        for p in [q for q in paths2 if q['kind'] == 'ret']:
+            la, lo, hh = [v.t for v in p['val']]
+            ic = L['head']['itercheck'].t
+            tol = z3.Q(1, 10 ** 10)
+            P.oblige('C03.xyz2llh.exit', 'convert.xyz2llh', 'exit', E.prove(z3.And(ic <= tol, ic >= -tol), p['pc']), strict=True,
+                     note='loop exit implies |last step| <= 1e-10 rad')
+            P.oblige('C03.xyz2llh.lon', 'convert.xyz2llh', 'exit',
+                     E.prove(z3.And(lo == UF['atan2'](Y.t, X.t) * 180 / PI, lo > -180, lo <= 180), prex + p['pc']), strict=True)
+            P.oblige('C03.xyz2llh.lat_is_loop_result', 'convert.xyz2llh', 'exit',
+                     E.prove_eq(la, lat_h * 180 / PI, []), code=la, spec=lat_h * 180 / PI)
+            # inverse at a fixed point (taken from the property statement, not from the code's height formula): if the loop
+            # result lat_h is a fixed point of the body, the closed form maps the RETURNED (lat, lon, h) back to (X, Y, Z)
+            fp = lat_h == step
+            pp = UF['sqrt'](X.t * X.t + Y.t * Y.t)
+            lam = UF['atan2'](Y.t, X.t)
+            xs = ((nu_h + hh) * UF['cos'](lat_h) * UF['cos'](lam), (nu_h + hh) * UF['cos'](lat_h) * UF['sin'](lam),
+                  ((1 - e2) * nu_h + hh) * UF['sin'](lat_h))
+            hyp = prex + [fp, pz == pp, pp > 0, UF['cos'](lat_h) > 0, lo == lam * 180 / PI, la == lat_h * 180 / PI,
+                          1 - e2 * UF['sin'](lat_h) ** 2 > 0]
+            sh, ch = UF['sin'](lat_h), UF['cos'](lat_h)
+            fp_trig = sh * pz == (Z.t + nu_h * e2 * sh) * ch
+            P.oblige('C03.xyz2llh.fixed_point_trig_form', 'convert.xyz2llh', 'lemma',
+                     E.prove_abs(fp_trig, [fp, pz > 0, ch > 0]), strict=True,
+                     note='lat = atan(q) implies sin(lat) p = (z + nu e2 sin lat) cos(lat)')
+            hyp = hyp + [fp_trig]
+            P.oblige('C03.xyz2llh.inverse_at_fixed_point', 'convert.xyz2llh', 'exit',
+                     E.prove_abs(z3.And(xs[0] == X.t, xs[1] == Y.t, xs[2] == Z.t), hyp, timeout=120000), strict=True,
+                     note='llh2xyz_spec(returned lat, lon, h) == (X, Y, Z) whenever the loop result is a fixed point of the body')
+
+    try:
+        loop_contract()
+    except (S.EngineError, KeyError) as ex:
+        # the function no longer has the shape of the contract (no latitude loop, or its state is named differently): the loop
+        # obligations cannot be stated; the property clause itself is put to the real function, and the bounded layer decides
+        why = 'xyz2llh no longer matches the loop contract (%s: %s)' % (type(ex).__name__, str(ex)[:100])
+        P.oblige('C03.xyz2llh.inverse_of_llh2xyz', 'convert.xyz2llh', 'whole function', dict(result=why, backend='native refutation sweep', ms=0), strict=True, soft=True,
+                 refute=native_roundtrip, pool=[{}], note='xyz2llh followed by the closed form returns the input within 0.02 mm (ellipsoids, latitudes, heights -5 km .. 40 000 km)')
     P.assumptions.append('assumed lemma: the latitude fixed-point iteration of xyz2llh contracts (factor ~ e^2 nu/(nu+h) < 0.007), so an exit step <= 1e-10 rad leaves an error far below 0.02 mm; proved: step form, exit criterion, exact inverse at a fixed point; convergence itself is checked by Layer B only')
     P.summaries.append('LOOP_xyz2llh_lat / LOOP_xyz2llh_itercheck: loop summary, uninterpreted functions of the loop read-set')
 
@@ -182,6 +209,9 @@ def main():
 
 
 def replay(d):
+    if (d.get('obligation') or '').startswith('Coord'):
+        from . import coordlib
+        return coordlib.replay_wiring(d['obligation'])
     from bounded import C03 as b
     fi = d.get('failing_input') or {}
     inp = fi.get('input', fi)
@@ -189,6 +219,11 @@ def replay(d):
         return b.replay_case(d.get('check'), inp)
     import geodepy.convert as cv, geodepy.constants as C
     mp.mp.dps = 50
+    if 'x' in inp and 'lat' not in inp:
+        la2, lo2, h2 = cv.xyz2llh(inp['x'], inp['y'], inp['z'], C.Ellipsoid(inp['a'], inp['invf']))
+        back = geo.geodetic_to_cart(mp.mpf(la2), mp.mpf(lo2), mp.mpf(h2), mp.mpf(inp['a']), mp.mpf(inp['invf']), MMp)
+        dev = max(abs(mp.mpf(u) - v) for u, v in zip((inp['x'], inp['y'], inp['z']), back))
+        return dict(input=inp, observed=(la2, lo2, h2), deviation_m=float(dev)) if dev > mp.mpf('2e-5') else None
     nat = cv.llh2xyz(inp['lat'], inp['lon'], inp['h'], C.Ellipsoid(inp['a'], inp['invf']))
     want = geo.geodetic_to_cart(mp.mpf(inp['lat']), mp.mpf(inp['lon']), mp.mpf(inp['h']), mp.mpf(inp['a']), mp.mpf(inp['invf']), MMp)
     dev = max(abs(mp.mpf(n) - w) for n, w in zip(nat, want))
